@@ -6,8 +6,8 @@ import (
 	"encoding/base64"
 	"fmt"
 	"os"
-	"sort"
 	"path/filepath"
+	"sort"
 	"strings"
 
 	"github.com/evanw/esbuild/pkg/api"
